@@ -97,6 +97,13 @@ class World:
                 ent[p] = {"sum": "absent", "res": "absent"}
             fresh = fresh_results()
             for rel, v in files.items():
+                # a value of the wrong JSON type anywhere (true for a number, a number for a string, ...) makes the
+                # document "JSON of the wrong shape" (C10): it is not a readable report
+                if type(v["checksum"]) is not str or type(v["language"]) is not str or type(v["loc"]) is not int:
+                    raise TypeError("ill-typed entry")
+                for m in v["measurements"]:
+                    if type(m["unit_name"]) is not str or type(m["value"]) is not int or any(type(m[a][b]) is not int for a in ("start", "end") for b in ("line", "column")):
+                        raise TypeError("ill-typed measurement")
                 p = rel2p.get(rel)
                 if p is None:
                     continue
@@ -292,10 +299,29 @@ class World:
             cf.write_text(" \n\t\n")
         elif how == "not_json":
             cdir.mkdir(exist_ok=True)
-            cf.write_text("this is not { json")
+            # detail selects the flavour: text that is not JSON, bytes that are not even text, a document cut in
+            # the middle of a multi-byte character
+            cf.write_bytes(NOT_JSON[(detail or 0) % len(NOT_JSON)])
         elif how == "shape":
             cdir.mkdir(exist_ok=True)
             cf.write_text(detail if detail is not None else "[]")
+        elif how == "illtyped":  # an entry keeps path and checksum, one field carries a value of the wrong JSON type
+            d = json.loads(cf.read_text())
+            files = d["codebase"]["files"]
+            key = sorted(files)[0]
+            ent = files[key]
+            flavour = (detail or 0) % 5
+            if flavour == 0 or not ent["measurements"]:
+                ent["loc"] = True
+            elif flavour == 1:
+                ent["measurements"][0]["value"] = True
+            elif flavour == 2:
+                ent["measurements"][0]["start"]["line"] = "1"
+            elif flavour == 3:
+                ent["measurements"][0]["end"]["column"] = False
+            else:
+                ent["language"] = 7
+            cf.write_text(json.dumps(d, indent=2))
         elif how == "dir_without_file":
             cdir.mkdir(exist_ok=True)
             if cf.exists():
@@ -314,6 +340,9 @@ class World:
                 cf.write_bytes(cf.read_bytes()[: max(0, cf.stat().st_size - 7)])
         else:
             raise ValueError(how)
+
+
+NOT_JSON = [b"this is not { json", b"\xff\xfe\x00\x01 not even text \x80\x81", b'{"version": "x", "root": "caf\xc3', b"\x00" * 64, b"\xef\xbb\xbf{}trailing"]
 
 
 def replay_history(hist, expand_damage=None):
